@@ -29,6 +29,7 @@ Universe == [
   H1  |-> O("HelicalGear", 12, Null, T10, Null, "H1"),
   H2  |-> O("HelicalGear", 36, Null, T10, Null, "H2"),
   H3  |-> O("HelicalGear", 24, Null, T25, Null, "H3"),
+  H0  |-> O("HelicalGear", 18, Null, "0", Null, "H0"),            \* helix angle exactly 0: still a helical gear (never mates with a spur)
   W   |-> O("WormGear", 2, Null, T10, A20, "W"),
   W2  |-> O("WormGear", 1, Null, T20, A20, "W2"),
   W3  |-> O("WormGear", 3, Null, "1/40", A20, "W3"),             \* flat helix (2.9 deg): self-locking already for f > 0.047
